@@ -1,6 +1,7 @@
 package main
 
 import (
+	"os"
 	"go/ast"
 	"fmt"
 	"go/token"
@@ -68,6 +69,10 @@ func callResultType(cc *ssa.CallCommon) types.Type {
 	return res
 }
 
+// auditAntecedents (GOVC_AUDIT_ANTECEDENTS=1): add a reachability query for the antecedent of every implication among
+// the anchored assertions and postconditions -- an audit for clauses that hold only because their antecedent is dead.
+var auditAntecedents = os.Getenv("GOVC_AUDIT_ANTECEDENTS") != ""
+
 func (fc *FnCtx) noteTrusted(s string) { fc.trustedUsed[s] = true }
 
 type anchorKey struct {
@@ -108,6 +113,13 @@ func (fc *FnCtx) runAnchors(anchor, when string, pos token.Pos) {
 		if a.When == when && (a.Anchor == full || a.Anchor == anchor+"#*") {
 			fc.anchorsHit[a] = true
 			env := fc.anchorEnv()
+			if auditAntecedents {
+				if ante, ok := env.antecedentOf(a.Expr); ok {
+					st := fc.cur.derive()
+					st.assume(ante)
+					fc.cover("ante!assert!"+strings.ReplaceAll(full, " ", "_")+"!"+truncate(a.Src, 60), st, pos)
+				}
+			}
 			goal := env.evalBool(a.Expr)
 			fc.oblige("assert", strings.ReplaceAll(full, " ", "_"), goal, pos, "assert "+when+" "+full+": "+a.Src)
 		}
